@@ -346,6 +346,8 @@ func init() {
 			E11SVGVocabulary(c, r)
 			E11WordListMatch(c, r)
 			E11SelectorHash(c, r)
+			E11PercentReference(c, r)
+			E11SelectorSubject(c, r)
 			E11SVGMiterLimitCarried(c, r)
 			E11SVGCascade(c, r)
 			E11SVGTransformSeparator(c, r)
